@@ -181,6 +181,31 @@ def r_cpu_helpers(e, R):
         for nm in v1:
             SC.never(e, R, "R-CPU-HELPERS", cg, f"no cgroup files ({fvars[miss].rsplit('/', 1)[-1]} missing)", facts, opens(nm), f"an open of {fvars[nm].rsplit('/', 1)[-1]}",
                      "FileNotFoundError out of cpu_count()")
+    # which text becomes the numerator?  cpu.max holds "<quota> <period>" in that order; the v1 quota file feeds the numerator
+    if ceil:
+        arg = ceil[0].ast.value.args[0]
+        if isinstance(arg, ast.BinOp) and isinstance(arg.left, ast.Name) and isinstance(arg.right, ast.Name):
+            num, den = arg.left.id, arg.right.id
+            withs = [n for n in func_nodes(cg) if isinstance(n, ast.With)]
+            for w_ in withs:
+                ce = w_.items[0].context_expr
+                fname = ce.args[0].id if isinstance(ce, ast.Call) and norm(ce.func) == "open" and ce.args and isinstance(ce.args[0], ast.Name) else None
+                if fname is None:
+                    continue
+                for st in w_.body:
+                    if not isinstance(st, ast.Assign):
+                        continue
+                    t0 = st.targets[0]
+                    if fname == v2[0]:
+                        okv2 = isinstance(t0, ast.Tuple) and [getattr(x, "id", None) for x in t0.elts] == [num, den] and isinstance(st.value, ast.Call) \
+                            and isinstance(st.value.func, ast.Attribute) and st.value.func.attr == "split"
+                        R.check(okv2, "R-CPU-HELPERS", "cgroup v2: cpu.max is '<quota> <period>': the first field is the numerator", cg.short, norm(st)[:70],
+                                "quota and period of cpu.max are swapped (period / quota): a 2.5-CPU limit yields 1, a 0.5-CPU limit yields 2", e.loc(cg, st))
+                    elif fname in v1:
+                        want = num if "quota" in fvars[fname] else den
+                        R.check(isinstance(t0, ast.Name) and t0.id == want, "R-CPU-HELPERS", f"cgroup v1: {fvars[fname].rsplit('/', 1)[-1]} feeds the "
+                                f"{'numerator' if want == num else 'denominator'}", cg.short, norm(st)[:70], "the v1 quota and period files are read into each other's variable",
+                                e.loc(cg, st))
     # affinity helper: sched_getaffinity is used exactly when the platform has it
     has = lambda x: isinstance(x, ast.Call) and isinstance(x.func, ast.Name) and x.func.id == "hasattr" and len(x.args) == 2 and isinstance(x.args[1], ast.Constant) \
         and x.args[1].value == "sched_getaffinity"
